@@ -5,6 +5,7 @@ package main
 import (
 	"strings"
 	"testing"
+	"time"
 
 	"verifharness/hx"
 	"verifharness/sim"
@@ -16,17 +17,29 @@ type kind struct {
 }
 
 var kinds = map[string]kind{
-	"prod": {genProd, runProd},
-	"idem": {genIdem, runIdem},
-	"cons": {genCons, runCons},
-	"grp":  {genGrp, runGrp},
-	"cmt":  {genCmt, runCmt},
-	"txn":  {genTxn, runTxn},
-	"eos":  {genEos, runEos},
-	"conn": {genConn, runConn},
+	"shard": {genShard, runShard},
+	"prod":  {genProd, runProd},
+	"idem":  {genIdem, runIdem},
+	"cons":  {genCons, runCons},
+	"grp":   {genGrp, runGrp},
+	"cmt":   {genCmt, runCmt},
+	"txn":   {genTxn, runTxn},
+	"eos":   {genEos, runEos},
+	"cls":   {genCls, runCls},
+	"ackr":  {genAckr, runAckr},
+	"share": {genShare, runShare},
+	"off":   {genOff, runOff},
+	"sel":   {genSel, runSel},
+	"conn":  {genConn, runConn},
 }
 
 func TestMain(m *testing.M) {
+	sim.DeadlineFor = func(tk []string) time.Duration {
+		if tk[0] == "share" {
+			return 30 * time.Second // a share scenario takes about a second; see share_test.go on HANG
+		}
+		return 0
+	}
 	sim.Main(m, func(a hx.Args) {
 		for _, k := range strings.Split(a.Extra["mode"], ",") {
 			if kd, ok := kinds[k]; ok {
